@@ -139,8 +139,12 @@ pub(crate) fn last_meta_timestamp(
         .data_len_bytes()
         .map_err(ExtractingTsError::GetDataLength)?;
 
-    let window = 10_000u64.next_multiple_of(payload_size.line_size() as u64);
     let overlap = payload_size.metainfo_size();
+    // the window must be larger than the overlap or the search below
+    // never moves towards the start of the file
+    let window = 10_000u64
+        .max(2 * overlap as u64)
+        .next_multiple_of(payload_size.line_size() as u64);
     let mut start = data_bytes.saturating_sub(window);
 
     loop {
